@@ -12,6 +12,31 @@ Proof.
   assert (2 ^ k <= 2 ^ (blen a - 1)) by (apply Z.pow_le_mono_r; lia). lia.
 Qed.
 
+Lemma frac_pos a exp : 0 < a -> 0 < fst (frac_of a exp) /\ 0 < snd (frac_of a exp).
+Proof.
+  intros. unfold frac_of. destruct (Z.leb_spec 0 exp); cbn [fst snd].
+  - pose proof (pow2_pos exp ltac:(lia)). split; nia.
+  - pose proof (pow2_pos (- exp) ltac:(lia)). lia.
+Qed.
+
+(** a successful conversion holds exactly the value of the float *)
+Theorem float_to_int_only_if_exact f uns bits v :
+  float_to_int_spec f uns bits = COk v ->
+  exists man exp, decode_spec f bits = DFin man exp /\
+    v * snd (frac_of man exp) = fst (frac_of man exp) /\ (uns = true -> 0 <= v).
+Proof.
+  unfold float_to_int_spec. destruct (decode_spec f bits) as [man exp| |]; try discriminate.
+  intros H. exists man, exp. split; [reflexivity|].
+  assert (Hd : 0 < snd (frac_of man exp)).
+  { unfold frac_of. destruct (Z.leb_spec 0 exp); cbn [snd]; [lia | apply pow2_pos; lia]. }
+  destruct (frac_of man exp) as [n d]; cbn [fst snd] in *.
+  destruct (Z.eqb_spec (n mod d) 0) as [Hz|]; [|destruct (uns && (n <? 0)); discriminate].
+  destruct (uns && (n / d <? 0)) eqn:E; [discriminate|]. inversion H; subst v.
+  split.
+  - pose proof (Z.div_mod n d ltac:(lia)). lia.
+  - intros ->. cbn [andb] in E. apply Z.ltb_ge in E. assumption.
+Qed.
+
 Section Decode.
 Variable P : enc_params.
 Hypothesis HMB : 1 <= MB P.
@@ -60,24 +85,6 @@ Proof.
       destruct (Z.ltb_spec man 0); destruct (Z.ltb_spec (man / 2 ^ (- exp)) 0); try reflexivity; nia.
     + destruct (Z.eqb_spec man 0) as [->|]; [rewrite Z.mod_0_l in Hnz by lia; lia|]. cbn [negb andb].
       destruct uns; cbn [andb]; [|reflexivity]. destruct (man <? 0); reflexivity.
-Qed.
-
-(** a successful conversion holds exactly the value of the float *)
-Theorem float_to_int_only_if_exact f uns bits v :
-  float_to_int_spec f uns bits = COk v ->
-  exists man exp, decode_spec f bits = DFin man exp /\
-    v * snd (frac_of man exp) = fst (frac_of man exp) /\ (uns = true -> 0 <= v).
-Proof.
-  unfold float_to_int_spec. destruct (decode_spec f bits) as [man exp| |]; try discriminate.
-  intros H. exists man, exp. split; [reflexivity|].
-  assert (Hd : 0 < snd (frac_of man exp)).
-  { unfold frac_of. destruct (Z.leb_spec 0 exp); cbn [snd]; [lia | apply pow2_pos; lia]. }
-  destruct (frac_of man exp) as [n d]; cbn [fst snd] in *.
-  destruct (Z.eqb_spec (n mod d) 0) as [Hz|]; [|destruct (uns && (n <? 0)); discriminate].
-  destruct (uns && (n / d <? 0)) eqn:E; [discriminate|]. inversion H; subst v.
-  split.
-  - pose proof (Z.div_mod n d ltac:(lia)). lia.
-  - intros ->. cbn [andb] in E. apply Z.ltb_ge in E. assumption.
 Qed.
 
 (** encode (decode bits) = Exact(bits) for every finite pattern except -0.0 (decode gives the
@@ -137,7 +144,7 @@ Proof.
   - (* negative: the sign bit is set *)
     assert (Hmp : 0 < m) by (destruct (Z.eq_dec m 0); [exfalso; unfold m in *; destruct (Z.eqb_spec E 0); nia | lia]).
     subst man exp. rewrite frac_of_opp. cbn [fst snd].
-    destruct (frac_of_pos m e Hmp) as [P1 P2].
+    destruct (frac_pos m e Hmp) as [P1 P2].
     rewrite ieee_rne_opp by assumption. rewrite (Core Hmp). cbn [fst snd CompOpp].
     rewrite (f_sign P). f_equal. lia.
   - subst man exp. destruct (Z.eq_dec m 0) as [Hz|].
@@ -147,3 +154,34 @@ Proof.
 Qed.
 
 End Decode.
+
+Ltac inst32 := first [cbn; lia | reflexivity | right; reflexivity].
+Ltac inst64 := first [cbn; lia | reflexivity | left; reflexivity].
+
+Theorem decode_f32_correct bits : 0 <= bits -> decode_asis P32 bits = decode_spec F32 bits.
+Proof. intros. change F32 with (fmt_of P32). apply decode_correct; try inst32; assumption. Qed.
+Theorem decode_f64_correct bits : 0 <= bits -> decode_asis P64 bits = decode_spec F64 bits.
+Proof. intros. change F64 with (fmt_of P64). apply decode_correct; try inst64; assumption. Qed.
+
+Theorem float_try_to_int_f32 uns bits : 0 <= bits -> float_try_to_int P32 uns bits = float_to_int_spec F32 uns bits.
+Proof. intros. change F32 with (fmt_of P32). apply float_try_to_int_correct; try inst32; assumption. Qed.
+Theorem float_try_to_int_f64 uns bits : 0 <= bits -> float_try_to_int P64 uns bits = float_to_int_spec F64 uns bits.
+Proof. intros. change F64 with (fmt_of P64). apply float_try_to_int_correct; try inst64; assumption. Qed.
+
+Theorem encode_decode_f32 bits man exp : 0 <= bits < 2 ^ 32 -> decode_spec F32 bits = DFin man exp ->
+  bits <> 2 ^ 31 -> encode_asis P32 man exp = (bits, Eq).
+Proof.
+  intros Hb Hd Hn. change F32 with (fmt_of P32) in Hd.
+  apply (encode_decode_roundtrip P32); try assumption; inst32.
+Qed.
+Theorem encode_decode_f64 bits man exp : 0 <= bits < 2 ^ 64 -> decode_spec F64 bits = DFin man exp ->
+  bits <> 2 ^ 63 -> encode_asis P64 man exp = (bits, Eq).
+Proof.
+  intros Hb Hd Hn. change F64 with (fmt_of P64) in Hd.
+  apply (encode_decode_roundtrip P64); try assumption; inst64.
+Qed.
+
+Example decode_f32_one : decode_asis P32 1065353216 = DFin 8388608 (-23).
+Proof. reflexivity. Qed.
+Example float_to_int_refuses_half : float_try_to_int P64 false 13832806255468478464 = CLossOfPrecision.
+Proof. reflexivity. Qed.
